@@ -153,6 +153,10 @@ RelateCase(i, j) ==
     LET im == IMofMaps(CatPos[i], CatPos[j], F) IN
     [op |-> "relate", id |-> <<i, j>>, a |-> Cat[i], b |-> Cat[j], im |-> im,
      pred |-> [i |-> ImIntersects(im), c |-> ImContains(im), w |-> ImWithin(im)],
+     \* the other named predicates, by their OGC definitions with the true dimensions of the operands
+     named |-> [disjoint |-> ~ImIntersects(im), covers |-> ImCovers(im), coveredby |-> ImCoveredBy(im), equals |-> ImEqualTopo(im),
+                touches |-> ImTouches(im), crosses |-> ImCrosses(im, Dim(Cat[i]), Dim(Cat[j])),
+                overlaps |-> ImOverlaps(im, Dim(Cat[i]), Dim(Cat[j]))],
      \* operands whose segments never cross properly: all arrangement nodes are input vertices, so the
      \* answer needs no computed intersection point and must survive even very ill-conditioned exact maps
      noproper |-> NoProperCrossing(Cat[i], Cat[j])]
@@ -214,4 +218,11 @@ OracleSane == ib > 0 =>
     LET im == IMofMaps(CatPos[ia], CatPos[ib], F) IN
     /\ Ch(im, 9) = "2"
     /\ ImTranspose(im) = IMofMaps(CatPos[ib], CatPos[ia], F)
+    \* lemma behind IntersectionMatrix::is_crosses / is_overlaps, which read the operands' dimensions off the matrix: the
+    \* largest entry of the interior row / column IS the dimension of the operand
+    /\ ImRowDim(im) = Dim(Cat[ia]) /\ ImColDim(im) = Dim(Cat[ib])
+    \* symmetric predicates are symmetric, covers / coveredby and contains / within are converses
+    /\ LET imt == ImTranspose(im)  da == Dim(Cat[ia])  db == Dim(Cat[ib]) IN
+         /\ ImTouches(im) = ImTouches(imt) /\ ImCrosses(im, da, db) = ImCrosses(imt, db, da) /\ ImOverlaps(im, da, db) = ImOverlaps(imt, db, da)
+         /\ ImCovers(im) = ImCoveredBy(imt) /\ ImContains(im) = ImWithin(imt) /\ ImEqualTopo(im) = ImEqualTopo(imt)
 =============================================================================
